@@ -972,6 +972,104 @@ func pagesTest(r *rand.Rand, holders, churners, rounds int) string {
 	}
 }
 
+// pageTrace: a sequential scenario (decode and hold key/value Bytes, release some, encode, decode again so that
+// pooled pages are reused, release the rest) recorded by the page hooks of protocol/buffer.go.
+type heldBytes struct {
+	b    protocol.Bytes
+	want []byte
+}
+
+type pageScenario struct {
+	r   *rand.Rand
+	hs  []heldBytes
+	bad string
+}
+
+func (ps *pageScenario) release(k int) {
+	for k > 0 && len(ps.hs) > 0 {
+		i := ps.r.Intn(len(ps.hs))
+		x := ps.hs[i]
+		ps.hs = append(ps.hs[:i], ps.hs[i+1:]...)
+		got, err := protocol.ReadAll(x.b)
+		if err != nil || !bytes.Equal(got, x.want) {
+			ps.bad = "held bytes changed"
+		}
+		x.b.Close()
+		k--
+	}
+}
+
+func (ps *pageScenario) run(steps int) {
+	defer func() {
+		if p := recover(); p != nil {
+			ps.bad = strings.ReplaceAll(fmt.Sprintf("panic:%v", p), " ", "_")
+		}
+	}()
+	r := ps.r
+	for st := 0; st < steps; st++ {
+		switch r.Intn(4) {
+		case 0, 1: // decode a set and keep its keys / values
+			rs := genRecs(r, 1+r.Intn(4), []int{0, 1, 2}[r.Intn(3)], false)
+			version := int8(1 + r.Intn(2))
+			set, err := produceProto(version, []int{0, 0, 1, 2}[r.Intn(4)], rs)
+			if err != nil {
+				ps.bad = "encode: " + err.Error()
+				continue
+			}
+			var rset protocol.RecordSet
+			if _, err := rset.ReadFrom(bufio.NewReader(bytes.NewReader(withSize(set)))); err != nil {
+				ps.bad = "decode: " + err.Error()
+				continue
+			}
+			for i := 0; ; i++ {
+				rec, err := rset.Records.ReadRecord()
+				if err != nil {
+					break
+				}
+				if rec.Key != nil {
+					ps.hs = append(ps.hs, heldBytes{rec.Key, rs[i].key})
+				}
+				if rec.Value != nil {
+					ps.hs = append(ps.hs, heldBytes{rec.Value, rs[i].value})
+				}
+			}
+		case 2:
+			ps.release(1 + r.Intn(4))
+		case 3: // encode only (page buffers of the writer, Truncate on the compressed v1 path)
+			produceProto(int8(1+r.Intn(2)), r.Intn(5), genRecs(r, 1+r.Intn(3), r.Intn(3), false))
+		}
+	}
+	ps.release(len(ps.hs))
+}
+
+func pageTrace(r *rand.Rand, steps int) (string, string) {
+	ps := &pageScenario{r: r}
+	protocol.VerifPagesStart()
+	ps.run(steps)
+	evs := protocol.VerifPagesStop()
+	parts := make([]string, len(evs))
+	for i, e := range evs {
+		switch e.Kind {
+		case "alloc":
+			parts[i] = "a"
+		case "reuse":
+			parts[i] = fmt.Sprintf("r%d", e.Page)
+		case "ref":
+			parts[i] = fmt.Sprintf("f%d", e.Page)
+		default:
+			parts[i] = fmt.Sprintf("u%d", e.Page)
+		}
+	}
+	tr := "-"
+	if len(parts) > 0 {
+		tr = strings.Join(parts, ",")
+	}
+	if ps.bad != "" {
+		return tr, ps.bad
+	}
+	return tr, fmt.Sprintf("ok %d", len(parts))
+}
+
 // ---------------------------------------------------------------- main
 
 func recsArg(rs []rec, nanos bool) string {
@@ -1102,6 +1200,16 @@ func main() {
 	}
 	defer o.Close()
 
+	if mode == "pagetrace" {
+		// first page activity of the process: every page is seen from its allocation on
+		steps := 60
+		if thorough {
+			steps = 400
+		}
+		evs, res := pageTrace(r, steps)
+		emit("ptrace "+evs, res)
+		return
+	}
 	if mode == "pages" {
 		for i := 0; i < 3; i++ {
 			emit(fmt.Sprintf("pages 6 6 %d", 30+i), pagesTest(r, 6, 6, 30+i))
